@@ -328,9 +328,9 @@ func (c *Ctx) initMap(s *State, r Term, mt *types.Map) {
 	hn, ln := mapHeapNames(mt)
 	ks := mapKeySort(mt.Key())
 	h := c.getHeap(s, hn, ArrSort(SInt, ArrSort(ks, SBool)))
-	c.setHeap(s, hn, Store(h, r, Term{fmt.Sprintf("((as const %s) false)", ArrSort(ks, SBool)), ArrSort(ks, SBool)}))
+	c.setHeapAt(s, hn, Store(h, r, Term{fmt.Sprintf("((as const %s) false)", ArrSort(ks, SBool)), ArrSort(ks, SBool)}), r)
 	l := c.getHeap(s, ln, ArrSort(SInt, SInt))
-	c.setHeap(s, ln, Store(l, r, IntLit(0)))
+	c.setHeapAt(s, ln, Store(l, r, IntLit(0)), r)
 }
 
 func (c *Ctx) mapHas(s *State, m Term, mt *types.Map, k Value) Term {
@@ -413,8 +413,8 @@ func (c *Ctx) execMapUpdate(s *State, x *ssa.MapUpdate) {
 	h := c.getHeap(s, hn, ArrSort(SInt, ArrSort(ks, SBool)))
 	had := Select(Select(h, m), kt)
 	l := c.getHeap(s, ln, ArrSort(SInt, SInt))
-	c.setHeap(s, ln, Store(l, m, Ite(had, Select(l, m), Add(Select(l, m), IntLit(1)))))
-	c.setHeap(s, hn, Store(h, m, Store(Select(h, m), kt, True)))
+	c.setHeapAt(s, ln, Store(l, m, Ite(had, Select(l, m), Add(Select(l, m), IntLit(1)))), m)
+	c.setHeapAt(s, hn, Store(h, m, Store(Select(h, m), kt, True)), m)
 	vt := mt.Elem()
 	if st, ok := isStructType(vt); ok && st.NumFields() == 0 {
 		return
@@ -428,7 +428,7 @@ func (c *Ctx) execMapUpdate(s *State, x *ssa.MapUpdate) {
 	for i, cp := range cs {
 		name := mapValHeap(mt, cp.Suffix)
 		hv := c.getHeap(s, name, ArrSort(SInt, ArrSort(ks, cp.Sort)))
-		c.setHeap(s, name, Store(hv, m, Store(Select(hv, m), kt, ts[i])))
+		c.setHeapAt(s, name, Store(hv, m, Store(Select(hv, m), kt, ts[i])), m)
 	}
 }
 
